@@ -97,6 +97,7 @@ def check(prog: Program, run: Run) -> None:
     # where the bytes of a value land: relative to the origin of the enclosing object
     c01._origin_window(prog, run, "C02.R3")
     c01._probe_restores(prog, run, "C02.R3")
+    c01.encode_state_roots(prog, run, "C02.R6")
 
 
 # ----------------------------------------------------------------------- R1
